@@ -63,7 +63,10 @@ def _exhaustive_for_pattern(arg):
     for n in range(maxn + 1):
         for t in RP.all_perms(n):
             pairs += 1
-            got = list(obj.occurrences_in(pm.Perm(t)))
+            try:
+                got = list(obj.occurrences_in(pm.Perm(t)))
+            except Exception as exc:  # pylint: disable=broad-except
+                got = ("exception", type(exc).__name__)
             if got != RP.occurrences(patt, t) and bad is None:
                 bad = (list(patt), list(prev) if prev is not None else None, list(t))
             prev = t
